@@ -174,6 +174,9 @@ func c05Scripted(F, slots int, lens []int) {
 		if i == k-1 {
 			nops = 3
 		}
+		if len(f) == 0 {
+			nops = 1 // an empty message has no frame to alter
+		}
 		switch verif.Choice("op"+id, nops) {
 		case 1: // arbitrary non-zero mask on one symbolic position
 			pos := verif.Int("maskpos"+id, 0, len(f)-1)
@@ -233,7 +236,7 @@ func Harness_C05_q_scripted() {
 }
 
 func Harness_C05_t_scripted_3() {
-	c05Scripted(3, 3, []int{0, 1})
+	c05Scripted(2, 3, []int{0, 1})
 }
 
 // A multi-frame message (full 1024-byte frames followed by a last frame) handed to one
